@@ -282,7 +282,9 @@ func runCheck(args []string) int {
 		modulePath = cc.Module
 	}
 	workDir := filepath.Join(verifDir, ".work", cc.Property+"-"+o.tier+"-"+strconv.Itoa(os.Getpid()))
-	defer os.RemoveAll(workDir)
+	if !o.smtlog { // --smtlog keeps the work directory (the logs live there)
+		defer os.RemoveAll(workDir)
+	}
 	os.MkdirAll(workDir, 0o755)
 	var known []KnownFinding
 	if kd, err := os.ReadFile(filepath.Join(verifDir, "known_findings.json")); err == nil {
